@@ -18,6 +18,7 @@ KFCorrection::KFCorrection(std::unique_ptr<LinearMeasurementModel> measurement_m
 
 
 KFCorrection::KFCorrection(KFCorrection&& kf_correction) noexcept :
+    GaussianCorrection(std::move(kf_correction)),
     measurement_model_(std::move(kf_correction.measurement_model_))
 { }
 
